@@ -165,9 +165,11 @@ package generator
 //@ requires specDoc != nil
 //@ ensures result != nil && vs_fresh(result)
 //@ ensures vs_all(func(k string) bool { return vs_has(result, k) ==> result[k].ID == k && result[k].Op != nil })
+//@ ensures len(vs_callResult[[]string]("pruneEmpty", 0)) == 0 ==> len(result) == len(vs_callArg[sort.Interface]("Sort", 0).(opRefs))
 //@ loop 1 invariant vs_all(func(j int) bool { return 0 <= j && j < len(oprefs) ==> oprefs[j].Op != nil })
 //@ loop 2 invariant vs_all(func(j int) bool { return 0 <= j && j < len(oprefs) ==> oprefs[j].Op != nil })
 //@ loop 3 invariant operations != nil && vs_fresh(operations)
 //@ loop 3 invariant vs_all(func(k string) bool { return vs_has(operations, k) ==> operations[k].ID == k && operations[k].Op != nil })
 //@ loop 3 invariant vs_all(func(j int) bool { return 0 <= j && j < len(oprefs) ==> oprefs[j].Op != nil })
 //@ loop 3 invariant len(operationIDs) == 0 ==> len(operations) == vs_done(3)
+//@ loop 4 invariant taken == vs_has(operations, nm)
